@@ -4,8 +4,10 @@
    range check (signed / unsigned / either / none, width, scale), Fits, Stored, NoTruncation.
 2. TLC (MCRelocRange): every type x boundary values of its field (and the 64-bit extremes): checks
    that the psABI range is exactly the set of values the field holds without loss and prints one
-   REPLAY record per (type, value) with the predicted decision and field content. A signed-only
-   R_X86_64_8 must be rejected as not tight (anti-vacuity).
+   REPLAY record per (type, value) with the predicted decision and field content. Three broken
+   readings of the table - signed-only R_X86_64_8/16, a half-open "no check" range that excludes
+   i64::MAX, unchecked MOVW_PREL_G0..2: defects wild once had - must each be rejected by TLC
+   (anti-vacuity); if the code behaves like one of them again the links below report a VIOLATION.
 3. Binding R (end to end): every record becomes a real link - `.reloc` of exactly that type against
    an absolute symbol (`--defsym sym=v`) or, for PC-relative types, against the place itself plus
    addend v - by GNU ld, ld.lld and wild (x86-64) / ld.lld and wild (AArch64); observed: exit status
@@ -34,6 +36,9 @@ META = {
     "engine": "tlc",
 }
 
+BROKEN = [("mc/RelocRange_broken_signed8.cfg", "TightInv"),
+          ("mc/RelocRange_broken_halfopen.cfg", "UncheckedInv"),
+          ("mc/RelocRange_broken_uncheckedprel.cfg", "NoTruncInv")]
 M64 = 1 << 64
 PCREL_MARKS = ("_PC", "PREL", "PLT32", "TSTBR", "CONDBR", "JUMP26", "CALL26")
 MARK = b"<MK:c12:KM>"
@@ -134,12 +139,14 @@ def model(cov):
         raise ToolError(f"RelocRange model check failed: {r.violated} {r.error_text}\n{r.trace_text[:2000]}{r.out[-1500:]}")
     if len(r.records) != r.distinct:
         raise ToolError(f"{r.distinct} states but {len(r.records)} REPLAY records")
-    b = tlc.run_tlc("MCRelocRange", "mc/RelocRange_broken.cfg", workers=1, timeout=300, coverage=False)
-    if b.ok or b.violated != "BrokenTightInv":
-        raise ToolError("signed-only R_X86_64_8 variant was not rejected by TLC: Tight is vacuous")
     cov["states"], cov["transitions"] = r.distinct, r.generated
-    cov["tlc_runs"] = [{"cfg": "mc/RelocRange_quick.cfg", **r.summary()},
-                       {"cfg": "mc/RelocRange_broken.cfg", "expected_violation": b.violated}]
+    cov["tlc_runs"] = [{"cfg": "mc/RelocRange_quick.cfg", **r.summary()}]
+    # anti-vacuity: the broken readings of the table (defects wild once had) must each be rejected
+    for cfg, inv in BROKEN:
+        b = tlc.run_tlc("MCRelocRange", cfg, workers=1, timeout=300, coverage=False)
+        if b.ok or b.violated != inv:
+            raise ToolError(f"broken variant {cfg} was not rejected on {inv} (got {b.violated}): the spec is vacuous there")
+        cov["tlc_runs"].append({"cfg": cfg, "expected_violation": b.violated})
     recs = []
     for x in r.records:
         x["v_int"] = bits_to_int(x["v"])
